@@ -86,6 +86,17 @@ func classifyC05(r c05res, secret []byte, hist [][]byte) string {
 	}
 	var na *radius.NonAuthenticResponseError
 	if errors.As(r.err, &na) {
+		// (the error is a value the caller prints: its message is a non-empty constant)
+		if msg := func() (m string) {
+			defer func() {
+				if recover() != nil {
+					m = ""
+				}
+			}()
+			return na.Error()
+		}(); msg == "" || msg != r.err.Error() {
+			return "failed nonauthentic-without-message"
+		}
 		return "failed nonauthentic"
 	}
 	if errors.Is(r.err, context.Canceled) || errors.Is(r.err, context.DeadlineExceeded) {
